@@ -864,3 +864,199 @@ Proof.
     + pose proof (proj2 (Heq x) (or_intror Hx)) as Hy. destruct Hy as [<-|Hy]; [|exact Hy].
       specialize (F2 a Hx). lia.
 Qed.
+
+(* ---------------------------------------------------------------------------------------------- *)
+(* authentication_structure_node_indices                                                           *)
+
+Lemma uadd_ok m a b : 0 <= a -> 0 <= b -> a + b < USZ -> uadd m a b = Ok (a + b).
+Proof. intros. unfold uadd. destruct (a + b <? USZ) eqn:E; [reflexivity|apply Z.ltb_ge in E; lia]. Qed.
+Lemma umul_ok m a b : a * b < USZ -> umul m a b = Ok (a * b).
+Proof. intros. unfold umul. destruct (a * b <? USZ) eqn:E; [reflexivity|apply Z.ltb_ge in E; lia]. Qed.
+
+Lemma asni_loop_ok m n : 0 <= n -> 2 * n <= USZ -> forall idxs needed0 comp0,
+  (forall i, In i idxs -> 0 <= i < n) ->
+  asni_loop m n idxs needed0 comp0 =
+    Ok (needed0 ++ flat_map (fun i => map sibling (path_up 64 (i + n))) idxs,
+        comp0 ++ flat_map (fun i => path_up 64 (i + n)) idxs).
+Proof.
+  intros Hn Hn2. induction idxs as [|i r IH]; intros needed0 comp0 Hr.
+  - cbn. now rewrite !app_nil_r.
+  - cbn [asni_loop flat_map].
+    assert (Hi : 0 <= i < n) by (apply Hr; left; reflexivity).
+    destruct (n <=? i) eqn:E; [apply Z.leb_le in E; lia|].
+    rewrite uadd_ok by lia. cbn [obind].
+    rewrite IH by (intros; apply Hr; right; assumption).
+    now rewrite <- !app_assoc.
+Qed.
+
+Lemma asni_loop_err m n : forall idxs needed0 comp0,
+  (exists i, In i idxs /\ n <= i) -> (forall i, In i idxs -> 0 <= i) -> 0 <= n -> 2 * n <= USZ ->
+  asni_loop m n idxs needed0 comp0 = Err.
+Proof.
+  induction idxs as [|i r IH]; intros needed0 comp0 [j [Hj Hnj]] Hpos Hn Hn2; [destruct Hj|].
+  cbn [asni_loop]. destruct (n <=? i) eqn:E; [reflexivity|]. apply Z.leb_gt in E.
+  assert (Hi0 : 0 <= i) by (apply Hpos; left; reflexivity).
+  rewrite uadd_ok by lia. cbn [obind].
+  apply IH; try assumption.
+  - destruct Hj as [->|Hj]; [lia|]. exists j. split; assumption.
+  - intros; apply Hpos; right; assumption.
+Qed.
+
+Lemma usz_pow : USZ = 2 ^ 64.
+Proof. reflexivity. Qed.
+
+Lemma computable_path n idxs x : 0 <= n -> 2 * n <= USZ -> (forall i, In i idxs -> 0 <= i < n) ->
+  (In x (flat_map (fun i => path_up 64 (i + n)) idxs) <-> computable n idxs x).
+Proof.
+  intros Hn Hn2 Hr. rewrite in_flat_map. unfold computable. split.
+  - intros [i [Hi Hx]]. apply path_up_In in Hx.
+    2:{ specialize (Hr i Hi). change (2 ^ Z.of_nat 64) with USZ. lia. }
+    destruct Hx as [Hx1 Hx2]. split; [exact Hx1|]. exists i. split; [exact Hi|].
+    now rewrite Z.add_comm.
+  - intros [Hx1 [i [Hi Hx2]]]. exists i. split; [exact Hi|]. apply path_up_In.
+    + specialize (Hr i Hi). change (2 ^ Z.of_nat 64) with USZ. lia.
+    + split; [exact Hx1|]. now rewrite Z.add_comm.
+Qed.
+
+Lemma needed_path n idxs x : 0 <= n -> 2 * n <= USZ -> (forall i, In i idxs -> 0 <= i < n) ->
+  (In x (flat_map (fun i => map sibling (path_up 64 (i + n))) idxs) <-> needed n idxs x).
+Proof.
+  intros Hn Hn2 Hr. unfold needed. rewrite <- (computable_path n idxs) by assumption.
+  rewrite !in_flat_map. split.
+  - intros [i [Hi Hx]]. apply in_map_iff in Hx. destruct Hx as [y [Hy1 Hy2]].
+    exists i. split; [exact Hi|]. rewrite <- Hy1, sibling_spec, spec_sibling_invol. exact Hy2.
+  - intros [i [Hi Hx]]. exists i. split; [exact Hi|]. apply in_map_iff.
+    exists (spec_sibling x). split; [|exact Hx]. now rewrite sibling_spec, spec_sibling_invol.
+Qed.
+
+Lemma zmem_In x l : zmem x l = true <-> In x l.
+Proof.
+  unfold zmem. rewrite existsb_exists. split.
+  - intros [y [Hy E]]. apply Z.eqb_eq in E. now subst.
+  - intros Hx. exists x. split; [exact Hx|apply Z.eqb_refl].
+Qed.
+
+Theorem auth_indices_spec m n idxs : 0 <= n -> 2 * n <= USZ -> (forall i, In i idxs -> 0 <= i < n) ->
+  exists r, auth_structure_node_indices m n idxs = Ok r /\ StronglySorted Z.gt r /\
+            forall x, In x r <-> minimal n idxs x.
+Proof.
+  intros Hn Hn2 Hr. unfold auth_structure_node_indices.
+  rewrite asni_loop_ok by assumption. cbn [obind app].
+  eexists. split; [reflexivity|]. split.
+  - apply rev_sorted_gt. apply dedup_adj_sorted. apply isort_asc_sorted.
+  - intros x. rewrite <- in_rev, dedup_adj_In, isort_asc_In, filter_In.
+    rewrite needed_path by assumption. unfold minimal.
+    rewrite <- (computable_path n idxs) by assumption.
+    rewrite negb_true_iff. rewrite <- not_true_iff_false, zmem_In. reflexivity.
+Qed.
+
+Theorem auth_indices_reject m n idxs : 0 <= n -> 2 * n <= USZ -> (forall i, In i idxs -> 0 <= i) ->
+  (exists i, In i idxs /\ n <= i) -> auth_structure_node_indices m n idxs = Err.
+Proof.
+  intros Hn Hn2 Hpos Hex. unfold auth_structure_node_indices.
+  rewrite asni_loop_err by assumption. reflexivity.
+Qed.
+
+(* ---------------------------------------------------------------------------------------------- *)
+(* the executable specification list                                                               *)
+
+Lemma ancestor_b_spec x y : 1 <= x -> 1 <= y -> (ancestor_b x y = true <-> ancestor x y).
+Proof.
+  intros Hx Hy. unfold ancestor_b, ancestor. split.
+  - intros Hb. apply andb_true_iff in Hb. destruct Hb as [H1 H2].
+    apply Z.leb_le in H1. apply Z.eqb_eq in H2.
+    exists (Z.log2 y - Z.log2 x). split; [exact H1|symmetry; exact H2].
+  - intros [k [Hk Hxy]].
+    assert (Hl : Z.log2 x = Z.log2 y - k).
+    { rewrite Hxy. rewrite <- Z.shiftr_div_pow2 by lia.
+      rewrite Z.log2_shiftr by lia.
+      destruct (Z_lt_dec (Z.log2 y - k) 0) as [Hneg|Hpos]; [|lia].
+      exfalso. assert (y < 2 ^ k).
+      { apply Z.log2_lt_pow2; lia. }
+      rewrite Z.div_small in Hxy by lia. lia. }
+    replace (Z.log2 y - Z.log2 x) with k by lia.
+    apply andb_true_iff. split; [apply Z.leb_le; lia|apply Z.eqb_eq; lia].
+Qed.
+
+Lemma computable_b_spec n idxs x : 1 <= n -> (forall i, In i idxs -> 0 <= i) ->
+  (computable_b n idxs x = true <-> computable n idxs x).
+Proof.
+  intros Hn Hr. unfold computable_b, computable. rewrite andb_true_iff, Z.ltb_lt, existsb_exists.
+  split.
+  - intros [Hx [i [Hi Hb]]]. split; [exact Hx|]. exists i. split; [exact Hi|].
+    apply ancestor_b_spec; [lia|specialize (Hr i Hi); lia|exact Hb].
+  - intros [Hx [i [Hi Ha]]]. split; [exact Hx|]. exists i. split; [exact Hi|].
+    apply ancestor_b_spec; [lia|specialize (Hr i Hi); lia|exact Ha].
+Qed.
+
+Lemma minimal_b_spec n idxs x : 1 <= n -> (forall i, In i idxs -> 0 <= i) ->
+  (minimal_b n idxs x = true <-> minimal n idxs x).
+Proof.
+  intros Hn Hr. unfold minimal_b, minimal, needed.
+  rewrite andb_true_iff, negb_true_iff, <- not_true_iff_false.
+  rewrite !computable_b_spec by assumption. reflexivity.
+Qed.
+
+Lemma down_from_In c : forall x y, In y (down_from x c) <-> x - Z.of_nat c < y <= x.
+Proof.
+  induction c; intros x y; cbn [down_from In]; [lia|]. rewrite IHc. lia.
+Qed.
+
+Lemma down_from_sorted c : forall x, StronglySorted Z.gt (down_from x c).
+Proof.
+  induction c; intros x; cbn [down_from]; constructor; [apply IHc|].
+  apply Forall_forall. intros y Hy. apply down_from_In in Hy. lia.
+Qed.
+
+Lemma filter_sorted {A} (R : A -> A -> Prop) (f : A -> bool) l :
+  StronglySorted R l -> StronglySorted R (filter f l).
+Proof.
+  induction 1 as [|a r Hs IH Hf]; cbn [filter]; [constructor|].
+  destruct (f a); [|exact IH]. constructor; [exact IH|].
+  rewrite Forall_forall in *. intros y Hy. apply filter_In in Hy. apply Hf. tauto.
+Qed.
+
+Lemma ancestor_le x y : 0 <= y -> ancestor x y -> 0 <= x <= y.
+Proof.
+  intros Hy [k [Hk ->]]. pose proof (Z.pow_pos_nonneg 2 k).
+  split; [apply Z.div_pos; lia|]. apply Z.div_le_upper_bound; [lia|nia].
+Qed.
+
+Lemma computable_range n idxs x : 1 <= n -> (forall i, In i idxs -> 0 <= i < n) ->
+  computable n idxs x -> 2 <= x <= 2 * n - 1.
+Proof.
+  intros Hn Hr [Hx [i [Hi Ha]]]. specialize (Hr i Hi). apply ancestor_le in Ha; lia.
+Qed.
+
+Lemma minimal_range n idxs x : 1 <= n -> (forall i, In i idxs -> 0 <= i < n) ->
+  minimal n idxs x -> 2 <= x <= 2 * n - 1.
+Proof.
+  intros Hn Hr [Hnd _]. apply computable_range in Hnd; try assumption.
+  unfold spec_sibling in Hnd. destruct (Z.even x) eqn:He.
+  - apply Zeven_bool_iff in He. apply Zeven_ex_iff in He. destruct He as [q ->]. lia.
+  - rewrite <- Z.negb_odd in He. apply negb_false_iff in He.
+    apply Zodd_bool_iff in He. apply Zodd_ex_iff in He. destruct He as [q ->]. lia.
+Qed.
+
+Lemma minimal_list_spec n idxs : 1 <= n -> (forall i, In i idxs -> 0 <= i < n) ->
+  StronglySorted Z.gt (minimal_list n idxs) /\ forall x, In x (minimal_list n idxs) <-> minimal n idxs x.
+Proof.
+  intros Hn Hr. unfold minimal_list. split.
+  - apply filter_sorted. apply down_from_sorted.
+  - intros x. rewrite filter_In, down_from_In.
+    rewrite minimal_b_spec by (try assumption; intros i Hi; specialize (Hr i Hi); lia).
+    split; [tauto|]. intros Hm. split; [|exact Hm].
+    pose proof (minimal_range n idxs x Hn Hr Hm). lia.
+Qed.
+
+(* C10 auth_structure_spec: the code's node-index list is the documented one *)
+Theorem auth_indices_eq m n idxs : 1 <= n -> 2 * n <= USZ -> (forall i, In i idxs -> 0 <= i < n) ->
+  auth_structure_node_indices m n idxs = Ok (minimal_list n idxs).
+Proof.
+  intros Hn Hn2 Hr.
+  destruct (auth_indices_spec m n idxs) as [r [R1 [R2 R3]]]; [lia|assumption|assumption|].
+  rewrite R1. f_equal.
+  destruct (minimal_list_spec n idxs Hn Hr) as [M1 M2].
+  apply sorted_gt_unique; try assumption.
+  intros x. rewrite R3, M2. reflexivity.
+Qed.
